@@ -28,6 +28,8 @@ class _Selector:
 
     def select(self, timeout):
         self._loop._advance(timeout)
+        if self._loop.stalls:
+            self._loop._postpone_stalled()
         return ()
 
     def close(self):
@@ -52,6 +54,13 @@ class SimLoop(asyncio.BaseEventLoop):
         self.stall_cap = 20000
         self.timer_slop = 0.0  # seconds every clock jump overshoots the next timer by
         self.force_running = False  # makes is_running() report True between iterations (foreign-thread model)
+        # stalled endpoints: owner key -> virtual time until which none of its timers, tasks or deliveries run
+        # (a blocked or descheduled process: its sockets buffer, its timers fire late, in their original order)
+        self.stalls = {}
+        self.owner_of = None  # callable(handle) -> owner key or None
+        self.postponed = 0
+        self.on_postpone = None
+        self._postpone_seq = 0
 
     def is_running(self):
         return getattr(self, "force_running", False) or super().is_running()
@@ -73,6 +82,40 @@ class SimLoop(asyncio.BaseEventLoop):
                     self._now = when + self.timer_slop
                 return
         self._now += timeout
+
+    def stall(self, owner, until):
+        """Nothing belonging to `owner` runs before virtual time `until` (callbacks already in the ready queue still do:
+        the stall starts at the end of the current iteration)."""
+        if until > self.stalls.get(owner, 0.0):
+            self.stalls[owner] = until
+
+    def _postpone_stalled(self):
+        now = self._now
+        for o in [o for o, u in self.stalls.items() if u <= now]:
+            del self.stalls[o]
+        if not self.stalls or self.owner_of is None:
+            return
+        sched = self._scheduled
+        end = now + self._clock_resolution
+        keep = []
+        while sched and sched[0]._when < end:
+            h = heapq.heappop(sched)
+            if h._cancelled:
+                keep.append(h)
+                continue
+            until = self.stalls.get(self.owner_of(h))
+            if until is None:
+                keep.append(h)
+                continue
+            # original order is kept among the postponed handles of one owner
+            self._postpone_seq += 1
+            h._when = until + self._postpone_seq * 1e-9
+            self.postponed += 1
+            if self.on_postpone is not None:
+                self.on_postpone()
+            keep.append(h)
+        for h in keep:
+            heapq.heappush(sched, h)
 
     # --- BaseEventLoop plumbing ------------------------------------------
     def _process_events(self, event_list):
